@@ -181,6 +181,11 @@ def _rdatas(keys):
 def build(kind, relativize, init, history):
     """Fresh real zone + model holding `init` then the committed op history."""
     z = KINDS[kind](ORIGIN, relativize=relativize)
+    if kind != "plain" and not relativize:
+        # half of the multi-version configurations retain every version (as with open readers
+        # or set_max_versions), the other half prune to the newest: a write transaction must
+        # start from the newest version either way
+        z.set_max_versions(None)
     m = zm.ZoneModel(ORIGIN)
     with z.writer(True) as txn:
         for nk, keys, ttl in INITIALS[init]:
